@@ -2704,6 +2704,10 @@ func (col *DatabaseCollectionWithUser) documentUpdateFunc(
 	createNewRevIDSkipped bool,
 	err error) {
 
+	// Error returns below are bare returns: hand the sequences accumulated by earlier attempts back to the
+	// caller rather than nil, otherwise the caller loses track of them and they are never released.
+	retUnusedSequences = unusedSequences
+
 	err = validateExistingDoc(doc, allowImport, docExists)
 	if err != nil {
 		return
@@ -2789,6 +2793,7 @@ func (col *DatabaseCollectionWithUser) documentUpdateFunc(
 	col.backupAncestorRevs(ctx, doc, newDoc.RevID, oldChannels)
 
 	unusedSequences, err = col.assignSequence(ctx, previousDocSequenceIn, doc, unusedSequences)
+	retUnusedSequences = unusedSequences
 	if err != nil {
 		if errors.Is(err, base.ErrMaxSequenceReleasedExceeded) {
 			base.ErrorfCtx(ctx, "Doc %s / %s had a much larger sequence (%d) than the current sequence number. Document update will be cancelled, since we don't want to allocate sequences to fill a gap this large. This may indicate document metadata being migrated between databases where it should've been stripped and re-imported.", base.UD(newDoc.ID), prevCurrentRev, doc.Sequence)
